@@ -17,6 +17,7 @@ func init() {
 
 func runC08(c *Ctx) {
 	L := c.L
+	c.checkNoLibraryGlobalWrites("library-global-state")
 	r := c.fn("distance/dna", "", "DistMatrix")
 	if !r.ok() {
 		return
